@@ -1,6 +1,7 @@
 """Shared machinery of the chart-of-accounts checks (C30, and the chart half of C29).
 
-Specification: spec/Chart.tla (+ MC_Chart.tla, Chart_exh.cfg / Chart_exh4.cfg / Chart_def.cfg / Chart_def2.cfg /
+Specification: spec/Chart.tla (pure operators: Valid, Find, Canon), spec/ChartGen.tla (generator,
+theorems, case emission) (+ MC_Chart.tla, Chart_exh.cfg / Chart_exh4.cfg / Chart_def.cfg / Chart_def2.cfg /
 Chart_sim.cfg / Chart_simL.cfg).  TLC checks the theorems of the spec on every generated chart and prints one CASE
 per chart with the outcome the spec prescribes; the Go engine `vh-chart` (harness/chartcase) replays
 the cases through the real schema code.
@@ -49,20 +50,21 @@ THEOREMS = ["TypeOK", "ThmRoundTripMeaning", "ThmCanonValid", "ThmCanonIdem", "T
 # tier -> list of TLC runs.  kind "bfs": exhaustive; "sim": -simulate random walks, `procs`
 # independent single-worker TLC processes whose seeds derive from VERIF_SEED (reproducible).
 PLAN = {
+    # steps of the same phase run concurrently, phases run one after the other
     "quick": [
-        dict(label="exh", kind="bfs", cfg="Chart_exh.cfg", timeout=400),
-        dict(label="def", kind="bfs", cfg="Chart_def.cfg", timeout=300),
-        dict(label="def2", kind="bfs", cfg="Chart_def2.cfg", timeout=300, workers=4),
-        dict(label="sim", kind="sim", cfg="Chart_sim.cfg", procs=4, num=40, depth=12, timeout=400),
+        dict(label="exh", kind="bfs", cfg="Chart_exh.cfg", timeout=500, workers=12, phase=0),
+        dict(label="def", kind="bfs", cfg="Chart_def.cfg", timeout=400, workers=6, phase=1),
+        dict(label="def2", kind="bfs", cfg="Chart_def2.cfg", timeout=400, workers=2, phase=1),
+        dict(label="sim", kind="sim", cfg="Chart_sim.cfg", procs=4, num=30, depth=12, timeout=500, phase=2),
     ],
     "thorough": [
-        dict(label="exh", kind="bfs", cfg="Chart_exh.cfg", timeout=900),
-        dict(label="def", kind="bfs", cfg="Chart_def.cfg", timeout=600),
-        dict(label="def2", kind="bfs", cfg="Chart_def2.cfg", timeout=600, workers=4),
+        dict(label="exh", kind="bfs", cfg="Chart_exh.cfg", timeout=1200, workers=12, phase=0),
+        dict(label="def", kind="bfs", cfg="Chart_def.cfg", timeout=900, workers=6, phase=1),
+        dict(label="def2", kind="bfs", cfg="Chart_def2.cfg", timeout=900, workers=2, phase=1),
+        dict(label="sim", kind="sim", cfg="Chart_sim.cfg", procs=4, num=400, depth=12, timeout=1500, phase=2),
+        dict(label="simL", kind="sim", cfg="Chart_simL.cfg", procs=4, num=120, depth=13, timeout=1800, phase=2),
         # every valid chart with <= 4 nodes (depth <= 4): theorems only, no case emission
-        dict(label="exh4", kind="bfs", cfg="Chart_exh4.cfg", timeout=2400, emit=False),
-        dict(label="sim", kind="sim", cfg="Chart_sim.cfg", procs=6, num=150, depth=12, timeout=1200),
-        dict(label="simL", kind="sim", cfg="Chart_simL.cfg", procs=6, num=40, depth=13, timeout=1800),
+        dict(label="exh4", kind="bfs", cfg="Chart_exh4.cfg", timeout=3000, workers=14, emit=False, phase=3),
     ],
 }
 
@@ -88,16 +90,23 @@ def run_tlc_plan(tier, seed, check=None, only=None):
     (header, [cases]) and runs a list of (label, TLCResult). Raises vlib.Inconclusive when TLC fails
     (a violated theorem of the spec alone is a spec problem, never a verdict about the code)."""
     groups, runs = [], []
-    for step in PLAN[tier]:
-        if only and step["label"] not in only:
-            continue
-        results = []
-        if step["kind"] == "sim":
-            seeds = [(seed * 1000003 + 7919 * i + 17) % (2 ** 31 - 1) for i in range(step["procs"])]
-            with concurrent.futures.ThreadPoolExecutor(max_workers=step["procs"]) as ex:
-                results = list(ex.map(lambda s: _run_one(step, s), seeds))
-        else:
-            results = [_run_one(step)]
+    steps = [st for st in PLAN[tier] if not only or st["label"] in only]
+    done = {}
+    for phase in sorted({st.get("phase", 0) for st in steps}):
+        tasks = []
+        for si, st in enumerate(steps):
+            if st.get("phase", 0) != phase:
+                continue
+            if st["kind"] == "sim":
+                for i in range(st["procs"]):
+                    tasks.append((si, i, (seed * 1000003 + 7919 * i + 17 + 104729 * si) % (2 ** 31 - 1)))
+            else:
+                tasks.append((si, 0, None))
+        with concurrent.futures.ThreadPoolExecutor(max_workers=max(1, len(tasks))) as ex:
+            for (si, i, _), r in zip(tasks, ex.map(lambda t: _run_one(steps[t[0]], t[2]), tasks)):
+                done.setdefault(si, []).append(r)
+    for si, step in enumerate(steps):
+        results = done.get(si, [])
         for i, r in enumerate(results):
             label = step["label"] if len(results) == 1 else "%s.%d" % (step["label"], i)
             runs.append((label, r))
